@@ -23,14 +23,23 @@ CLAIM = {
              "generated ledger, Ledger::balance for all (start,end) pairs drawn from {none, day before first, every transaction date, "
              "day after last} and the register are compared with the model's balanceNoConv / register computed from the "
              "implementation's own transactions; an independent python oracle re-sums the postings (range membership, zero removal, "
-             "rounding, additivity, register total); the real binary's `balance --start --end` and `register` are cross-checked."),
+             "rounding, additivity, register total); the real binary's `balance --start --end` and `register` are cross-checked. TEXT "
+             "level (Lemmas/BookText2 + Props/C04Text: parser MODEL composed with `process`): for the ledger ANY text denotes "
+             "(Denotes t es st: the text parses to es and process accepts them), with no side condition, C04_text_register_total "
+             "(per account and commodity: final running total of `register ACCOUNT` = registerTotal, shown in the register's last "
+             "row by register_last = balance report = balance recomputed over the unbounded range = sum of all posting amounts; no "
+             "zero entry), C04_text_additive (ranges [s,m) and [m,e) add up to [s,e), any end unbounded), C04_text_range. NOT "
+             "proved: equality of the parser model with the Rust parser (correspondence-checked by C05/C06/C14)."),
     "note": ("modelled, not verified: rust_decimal, rounding is applied by the code only on the range-recomputed path (the raw path is "
              "unrounded) — both as in the model."),
     "design_ref": "DESIGN.md section 6, C04",
 }
 
 THEOREMS = ["Okane.C04_raw", "Okane.C04_agree", "Okane.C04_additive_process", "Okane.processFrom_PostingsWF", "Okane.RawOK_processFrom", "Okane.txn_balance", "Okane.C04_nozero", "Okane.C04_range", "Okane.C04_additive", "Okane.register_total",
-            "Okane.selSum_split", "Okane.rangeFold", "Okane.acctSum_modify_empty", "Okane.loop_unfilled_empty"]
+            "Okane.selSum_split", "Okane.rangeFold", "Okane.acctSum_modify_empty", "Okane.loop_unfilled_empty",
+            # text level (Lemmas/BookText2; audited through Props/C04Text.lean)
+            "Okane.BookText.C04_text_register_total", "Okane.BookText.C04_text_additive", "Okane.BookText.C04_text_range",
+            "Okane.BookText.register_last", "Okane.BookText.registerTotal_getPart", "Okane.BookText.postingsOf_sum"]
 
 OKF = ["plain", "omitted", "cost", "lot", "pair", "assign", "assert", "expr", "multi-omitted", "assign-zero", "total-cost"]
 
@@ -150,7 +159,7 @@ def run(chk):
                 "for the ledger's dates); non-trivial = ledger accepted and at least one transaction in some queried range; distinct = "
                 "distinct (ledger, range list)")
     chk.assumptions = ["rust_decimal is exact on the generated values", "parser outside this check"]
-    if not standard_prologue(chk, THEOREMS, imports=["Okane.Props.Book"]):
+    if not standard_prologue(chk, THEOREMS, imports=["Okane.Props.Book", "Okane.Props.C04Text"]):
         return
     n = 1200 if chk.tier == "quick" else 20000
     recs = run_stream(chk, n, OKF)
